@@ -98,6 +98,7 @@ type Contract struct {
 	bodies   map[int][]*Clause // per-iteration obligations checked at the back edge
 	entries  map[int][]*Clause // obligations checked when the loop is first reached
 	invs     map[int][]*Clause
+	forget   map[int][]string
 	decr     map[int]*Clause
 	opts     map[string]string
 	uses     []string
@@ -181,7 +182,7 @@ func lex(s string) ([]tok, error) {
 			out = append(out, tok{"str", s[i+1 : j]})
 			i = j + 1
 		default:
-			ops := []string{"==>", "<==>", "::", "==", "!=", "<=", ">=", "&&", "||", "+", "-", "*", "/", "%", "<", ">", "!", "(", ")", "[", "]", "{", "}", ",", ".", ":"}
+			ops := []string{"==>", "<==>", "::", "==", "!=", "<=", ">=", "&&", "||", "+", "-", "*", "/", "%", "<", ">", "!", "(", ")", "[", "]", "{", "}", ",", ".", ":", "&"}
 			matched := false
 			for _, op := range ops {
 				if strings.HasPrefix(s[i:], op) {
@@ -345,7 +346,7 @@ func (p *parser) parseMul() Expr {
 	return l
 }
 func (p *parser) parseUnary() Expr {
-	if p.isOp("-") || p.isOp("!") || p.isOp("*") {
+	if p.isOp("-") || p.isOp("!") || p.isOp("*") || p.isOp("&") {
 		op := p.next().s
 		return &EUn{op, p.parseUnary()}
 	}
@@ -609,6 +610,21 @@ func (cs *ContractSet) parseFile(pkg, path, src string) error {
 			} else {
 				cur.prelets = append(cur.prelets, l)
 			}
+		case "forget":
+			// forget <loop> <name>...: when the loop is cut, the named (unmodified) Go variables are
+			// replaced by arbitrary values; what the loop needs to know about them goes into invariants
+			f := strings.Fields(rest)
+			if len(f) < 2 {
+				return errf("forget needs a loop ordinal and variable names")
+			}
+			n, err := strconv.Atoi(f[0])
+			if err != nil {
+				return errf("forget needs a loop ordinal")
+			}
+			if cur.forget == nil {
+				cur.forget = map[int][]string{}
+			}
+			cur.forget[n] = append(cur.forget[n], f[1:]...)
 		case "body", "atentry":
 			f := strings.SplitN(rest, " ", 2)
 			n, err := strconv.Atoi(f[0])
@@ -980,6 +996,45 @@ func (x *Exec) eval(st *State, env *Env, e Expr) Value {
 	case *EIdent:
 		return x.evalIdent(st, env, n.name)
 	case *EUn:
+		if n.op == "&" {
+			// address of a field of a pointed-to struct: &q.f
+			if ix, ok := n.x.(*EIndex); ok {
+				// address of a slice element: &s[i]
+				sl, ok := x.eval(st, env, ix.x).(*SliceV)
+				if !ok || sl.cell == nil {
+					fail("&s[i]: s is not a non-nil slice")
+				}
+				i := x.evalNum(st, env, ix.i)
+				if _, isSym := st.store[sl.cell].(*SymArr); isSym {
+					return &Ptr{cell: sl.cell, sym: mkAdd(sl.off, i)}
+				}
+				off, ok1 := concreteInt(sl.off)
+				k, ok2 := concreteInt(i)
+				if !ok1 || !ok2 {
+					fail("&s[i]: symbolic index into a concrete array")
+				}
+				return &Ptr{cell: sl.cell, path: []int{off + k}}
+			}
+			sel, ok := n.x.(*ESel)
+			if !ok {
+				fail("& applies to a field selection q.f or a slice element s[i] in specifications")
+			}
+			bp, ok := x.eval(st, env, sel.x).(*Ptr)
+			if !ok || bp.cell == nil {
+				fail("&%s: the base is not a non-nil pointer", sel.name)
+			}
+			pt, _ := x.typeOfValue(st, bp).(*types.Pointer)
+			if pt != nil {
+				if stt, ok := pt.Elem().Underlying().(*types.Struct); ok {
+					for i := 0; i < stt.NumFields(); i++ {
+						if stt.Field(i).Name() == sel.name {
+							return &Ptr{cell: bp.cell, path: appendPath(bp.path, i), sym: bp.sym}
+						}
+					}
+				}
+			}
+			fail("&: no field %s", sel.name)
+		}
 		v := x.eval(st, env, n.x)
 		if n.op == "*" {
 			p, ok := v.(*Ptr)
@@ -1757,7 +1812,7 @@ func (x *Exec) specBuiltin(st *State, env *Env, name string, args []Expr) (Value
 		st.apps = tmp.apps
 		st.ax = tmp.ax
 		return v, true
-	case "nev", "evarg", "evbefore", "evres":
+	case "nev", "evarg", "evptr", "evbefore", "evres":
 		strArg := func(i int) string {
 			s, ok := x.eval(st, env, args[i]).(*Str)
 			if !ok || s.sym != nil {
@@ -1777,7 +1832,7 @@ func (x *Exec) specBuiltin(st *State, env *Env, name string, args []Expr) (Value
 				}
 			}
 			return mkInt(int64(n)), true
-		case "evarg", "evres":
+		case "evarg", "evres", "evptr":
 			nm := strArg(0)
 			k, ok1 := concreteInt(num(1))
 			ai, ok2 := concreteInt(num(2))
@@ -1796,6 +1851,13 @@ func (x *Exec) specBuiltin(st *State, env *Env, name string, args []Expr) (Value
 						}
 						if ai >= len(ev.args) {
 							fail("evarg: event %s has %d arguments", nm, len(ev.args))
+						}
+						if name == "evptr" {
+							// the argument as passed (a pointer stays a pointer)
+							if ai >= len(ev.raw) {
+								fail("evptr: event %s does not record its arguments as passed", nm)
+							}
+							return ev.raw[ai], true
 						}
 						return ev.args[ai], true
 					}
